@@ -339,7 +339,7 @@ pub fn default_rx2(region: &str) -> (u32, u8) {
         "IN865" => (866_550_000, 2),
         "AS923_1" => (923_200_000, 2),
         "AS923_2" => (921_400_000, 2),
-        "AS923_3" => (916_500_000, 2),
+        "AS923_3" => (916_600_000, 2),
         "AS923_4" => (917_300_000, 2),
         _ => (923_300_000, 8),
     }
@@ -668,7 +668,24 @@ pub fn oracle_c09_c10(op: &str, outs: &[String], check_c09: bool, check_c10: boo
                 Some("rx1") | Some("rx2") | Some("rxc") => {
                     if out.contains("resp=JoinSuccess") && w.len() >= 8 && w[3] == "j" {
                         negotiated = w[7].parse::<u32>().ok().map(|d| d.max(1) * 1000);
-                    } else if out.contains("DownlinkReceived") || out.contains("SessionExpired") {
+                    } else if out.contains("DownlinkReceived") && w[0] != "rxc" && w.len() >= 11 && w[3] == "d" {
+                        // a Class A downlink: an RXTimingSetupReq among its commands (FOpts, or the
+                        // payload of port 0) negotiates max(1, Del) seconds — the last one wins;
+                        // without one the delay in force stays
+                        let mut bytes = if w[8] == "-" { vec![] } else { unhex(w[8]) };
+                        if w[9] == "0" && w[10] != "-" {
+                            bytes.extend_from_slice(&unhex(w[10]));
+                        }
+                        let (cmds, whole) = split_cmds(&bytes, down_len);
+                        if !whole {
+                            negotiated = None;
+                        }
+                        for c in cmds.iter() {
+                            if c.0 == 0x08 && c.1.len() == 1 {
+                                negotiated = Some(((c.1[0] & 0x0f) as u32).max(1) * 1000);
+                            }
+                        }
+                    } else if out.contains("SessionExpired") {
                         negotiated = None;
                     }
                 }
